@@ -1,8 +1,8 @@
 (* Properties/C16.v — pinned statements only. *)
 From Coq Require Import QArith.
-From Boreal Require Import Base.Prelude Spec.MathSpec Spec.Digest Spec.Strtol Spec.RangeSpec
+From Boreal Require Import Base.Prelude Spec.MathSpec Spec.Digest Spec.Strtol Spec.RangeSpec Spec.PeriodicSpec
   Model.ModFuncs Model.HashMod Model.MathMod Model.StringMod Model.ModFuncsCase
-  Proofs.ModFuncsProofs Proofs.ModFuncsFrag Proofs.ModFuncsToInt Proofs.ModFuncsMath Proofs.ModFuncsCrc Proofs.ModFuncsMath2 Proofs.ModFuncsAll.
+  Proofs.ModFuncsProofs Proofs.ModFuncsFrag Proofs.ModFuncsToInt Proofs.ModFuncsMath Proofs.ModFuncsCrc Proofs.ModFuncsMath2 Proofs.ModFuncsAll Proofs.ModFuncsPeriodic.
 
 (* ---- arguments: with i64 arguments the checked additions of get_args / offset_length_to_start_end never fail *)
 Theorem C16_args_no_overflow : forall o n,
@@ -209,6 +209,35 @@ Theorem C16_model_eq_spec : forall m ps, mem_ok m ->
   Forall (fun p => wf_probe (fst p) (snd p)) ps -> model_run m no_caches ps = spec_run m ps.
 Proof. exact model_eq_spec. Qed.
 
+(* ---- huge periodic inputs (k copies of a short pattern): the closed forms the correspondence uses for inputs of
+   tens of MiB are the list specifications of `rep p q`, for every pattern and every q *)
+Theorem C16_periodic_closed_forms : forall p q,
+  mean_spec (rep p q) = p_mean p (N.of_nat q)
+  /\ (forall b, count_spec b (rep p q) = p_count_opt p (N.of_nat q) b)
+  /\ (forall b, percentage_spec b (rep p q) = p_percentage p (N.of_nat q) b)
+  /\ entropy_spec (rep p q) = p_entropy p (N.of_nat q)
+  /\ checksum32_ref (rep p q) = p_checksum32 p (N.of_nat q)
+  /\ (forall mu, Forall (fun x => x < 256) p -> deviation_spec (rep p q) mu = p_deviation p (N.of_nat q) mu).
+Proof. exact periodic_closed_forms. Qed.
+
+Theorem C16_periodic_ranges : forall p k o n, p <> [] ->
+  match periods (nlen p) (N.of_nat k) o n with
+  | Some None => clip_direct (rep p k) o n = None
+  | Some (Some q) => clip_direct (rep p k) o n = Some (rep p (N.to_nat q))
+  | None => True
+  end.
+Proof. exact periods_clip. Qed.
+
+Theorem C16_periodic_mode : forall p q, mode_spec (rep p q) = p_mode p (N.of_nat q).
+Proof. exact rep_mode. Qed.
+
+(* serial correlation and monte-carlo closed forms: finite check, all q < 14 over the listed patterns *)
+Theorem C16_periodic_bounded_check :
+  forallb (fun p => forallb (fun q =>
+      fval_eqb (scc_spec (rep p q)) (p_scc p (N.of_nat q))
+      && ofval_eqb (monte_spec (rep p q)) (p_monte p (N.of_nat q))) (seq 0 14)) check_patterns = true.
+Proof. exact periodic_bounded_check. Qed.
+
 (* ---- non-vacuity *)
 Example C16_range_example :
   hash_call checksum_d (Direct [1;2;3;4;5]) [AInt 3; AInt 100] = RInt 9.
@@ -265,6 +294,11 @@ Example C16_model_eq_spec_values :
   = [RInt 824863398; RInt 97; RUndef].
 Proof. vm_compute. reflexivity. Qed.
 
+Example C16_periodic_example :   (* 17 MiB of 0xFF: the sum exceeds 2^32, the mean is exactly 255 *)
+  p_mean [255] 17825792 = Some (FQ (255 # 1)) /\ p_checksum32 [255] 17825792 = 250609664
+  /\ periods 1 17825792 0 9223372036854775807 = Some (Some 17825792).
+Proof. vm_compute. repeat split. Qed.
+
 Example C16_crc_table_example :   (* entries 1, 128, 255 of the standard CRC-32 table *)
   nth 1 crc_table 0 = 1996959894 /\ nth 128 crc_table 0 = 3988292384 /\ nth 255 crc_table 0 = 755167117.
 Proof. vm_compute. repeat split. Qed.
@@ -303,3 +337,7 @@ Print Assumptions C16_hash_int_ranges.
 Print Assumptions C16_math_fragmented.
 Print Assumptions C16_on_range_fragmented_inv.
 Print Assumptions C16_model_eq_spec.
+Print Assumptions C16_periodic_closed_forms.
+Print Assumptions C16_periodic_ranges.
+Print Assumptions C16_periodic_mode.
+Print Assumptions C16_periodic_bounded_check.
